@@ -207,8 +207,12 @@ class Builder:
             self.secured = False
         return self.add_call(("O",), cmds=[b"REIN"], replies=reps, returns_last_only=True, secured=was_sec)
 
-    def disconnect(self, graceful=True, code=221):
+    def disconnect(self, graceful=True, code=None):
         cmds, reps = [], []
+        if code is None:
+            # the reply to QUIT is a reply like any other - refused, not understood, or merely positive: the connection is
+            # released whatever it says
+            code = self.rng.choice([221, 221, 221, 221, 500, 530, 502, 200, 451])
         if graceful:
             rp = self.m(code, "bye")
             self.cur.append(reaction([rp]))
